@@ -4,12 +4,19 @@
    build_init / the exit trap for the invocation that runs and for every invocation started meanwhile.
    The property-shaped checker OrchSpec.spec_ok_account (the oracle the harness applies to real canvas runs)
    is PROVED to accept what every ended run of the model leaves behind.
-   NOT MODELLED (observed end to end by the harness): the content of log files, the mail transport, the
-   duration field.  ASSUMED: lock_acquire is atomic.  The shapes of trap_exit, lock_acquire, lock_release in
-   util.sh are pinned by harness/t_orch.py (gen/Gen_Orch.v). *)
+   NOT MODELLED (observed end to end by the harness): the content of log files, the mail transport.
+   ASSUMED: lock_acquire is atomic; the clock read by date(1) does not step back (duration clause, with a witness
+   for a clock that does).  The tie to util.sh: harness/t_orch.py writes the statement groups of robsd()'s loop,
+   step_exec_job() and trap_exit() down in source order (gen/Gen_Orch.v); the LAST theorems of this file prove
+   that their interpretation (Orch/ShapeSem.v) is main_step / job_step / trap_exit / invoke_end.
+   Statements whose full reading the code REFUTES carry `_refuted` (witness, replayed on the real canvas by a
+   harness lane with its own signature) and `_partial` (the guard): the second invocation naming the RUNNING
+   directory, a refused resume mailing again, end in the skip set, the in-flight record of a parallel step below
+   the resume point, the duration under a clock that steps back. *)
 From Robsd Require Import Orch.OrchSpec Orch.OrchProofs Orch.AccountProofs Orch.ResumeProofs Orch.ResumeSpec Orch.StepBridge.
 From Robsd Require Import Orch.OrchSteps Orch.TraceMeaning Orch.TraceOracle Orch.AccountOracle Orch.FreshFile Orch.RunLock Orch.RunLockProofs
   Orch.Statements Orch.ModelShape.
+From Robsd Require Import Orch.ShapeSem Orch.OrchTie Orch.LoopEnd Orch.LoopEndProofs Orch.SameDir.
 From Robsd Require Import Step.StepSpec Step.StepRows Step.StepWrite Step.StepLex Base.DecimalProofs.
 From RobsdGen Require Import Gen_Step Gen_Orch.
 Local Open Scope Z_scope.
@@ -148,6 +155,134 @@ Example C11_example :
   spec_ok_account steps [] (executed nm s) (leftovers_of s true true false) = true.
 Proof. vm_compute. repeat split; reflexivity. Qed.
 
+(* ---- statements the code refutes outside a guard ------------------------------------------------------------- *)
+
+(* "no record is left in the in-flight state unless the invocation was killed", for RESUMED invocations.
+   C11_no_inflight_unless_killed above lets a record of the initial file through unchanged (its last disjunct).
+   REFUTED: a parallel step 1 in flight and the parallel step 2 completed when the invocation was killed; the resumed
+   invocation starts at 3 (step_next), runs c and end, ends with status 0 - and record 1 still says -1.
+   Replayed on the real canvas (harness lane parallel-resume; C03_parallel_resume_skips_inflight is the C03 side) *)
+Theorem C11_no_inflight_after_resume_refuted :
+  let f := [mkrow 1 se_A (-1) 0; mkrow 2 se_P 0 0] in
+  let s := orun 2 (fun _ => 0) pr_nm (oinit (psteps_from 3 pr_steps) f) [AMain; AJob 3; AJob 3; AMain; AMain] in
+  ResumeDefs.step_next f = Some 3 /\ mode s = ODone /\ running s = [] /\ e_status (trap_exit_of s false) = 0 /\
+  In (mkrow 1 se_A (-1) 0) (sfile_ s).
+Proof. exact inflight_parallel_record_left_after_resume. Qed.
+Print Assumptions C11_no_inflight_after_resume_refuted.
+
+(* the guard: every in-flight record of the initial file belongs to a step this invocation starts (a fresh invocation;
+   a sequential one resumed at its in-flight step): then NO record at all is in flight once it has ended *)
+Theorem C11_no_inflight_unless_killed_partial : forall ncpu exit_of name_of steps f0,
+  NoDup (map p_id steps) -> (forall p, In p steps -> p_exit p = exit_of (p_id p)) -> ids_asc f0 ->
+  (forall i, exit_of i <> -1) ->
+  forall s, oreach ncpu exit_of name_of steps f0 s -> mode s = ODone \/ mode s = OFailed ->
+  (forall r, In r f0 -> r_exit r = -1 -> started s (r_id r)) ->
+  forall r, In r (sfile_ s) -> r_exit r <> -1.
+Proof. exact no_inflight_when_resumed_at_the_inflight_step. Qed.
+Print Assumptions C11_no_inflight_unless_killed_partial.
+
+(* every way a fresh invocation can end is a [terminal] state - when end is configured and NOT skipped: the
+   accounting theorems above then cover every end of the invocation *)
+Theorem C11_every_end_is_terminal_partial : forall ncpu exit_of name_of steps skip,
+  wf_cfg exit_of name_of steps -> fresh_ok steps skip -> (exists p, In p steps /\ p_name p = END) ->
+  forall s, oreach ncpu exit_of name_of steps (skip_file steps skip) s -> fell_off s = false.
+Proof. exact fell_off_unreachable_fresh. Qed.
+Print Assumptions C11_every_end_is_terminal_partial.
+
+(* skip { "end" } (a skip set of the configuration: inside the quantifier).  "skipped steps have a skip record ... the
+   hook ran once per executed step (and once for end)": REFUTED on a FAILED build - a fails with 2, end is skipped:
+   the exit trap still runs the end hook (step-name=end step-exit=0) because it looks the end record up by name,
+   whatever its skip flag; the accounting oracle rejects what is left.  The configuration is well formed in every
+   other respect (first conjunct).  fresh_ok - end not in the skip set - is the guard of the theorems above *)
+Theorem C11_skipped_end_gets_the_end_hook_refuted :
+  (wf_cfg se_ex1 se_nm1 se_steps1 /\ end_last se_steps1 /\ ids_ascending se_steps1 /\
+   (forall n, In n [END] -> exists p, In p se_steps1 /\ p_name p = n)) /\
+  let s := orun 1 se_ex1 se_nm1 (oinit se_steps1 (skip_file se_steps1 [END])) [AMain; AJob 1; AJob 1; AMain] in
+  mode s = OFailed /\ sfile_ s = [mkrow 1 se_A 2 0; mkrow 2 END 0 1] /\
+  e_status (trap_exit_of s false) = 1 /\ e_endhook (trap_exit_of s false) = true /\
+  final_hooks s false = [(se_A, 2); (END, 0)] /\
+  spec_ok_account se_steps1 [END] (executed se_nm1 s) (leftovers_of s false true false) = false.
+Proof. exact (conj se_wf1 skip_end_hook_on_failed_build). Qed.
+Print Assumptions C11_skipped_end_gets_the_end_hook_refuted.
+
+(* ... and with a parallel last step the loop runs out of schedule lines without the barrier: report, end hook and
+   lock release happen while step 2 is in flight (record -1); its failure is recorded after the report was made *)
+Theorem C11_exit_trap_while_parallel_step_runs_refuted :
+  let s := orun 2 se_ex2 se_nm2 (oinit se_steps2 (skip_file se_steps2 [END]))
+             [AMain; AJob 1; AJob 1; AMain; AMain; AJob 2; AMain] in
+  fell_off s = true /\ running s = [(2, JRunning)] /\
+  sfile_ s = [mkrow 1 se_A 0 0; mkrow 2 se_P (-1) 0; mkrow 3 END 0 1] /\
+  e_status (trap_exit_of s false) = 0 /\ e_report (trap_exit_of s false) = true /\ e_endhook (trap_exit_of s false) = true /\
+  failing_record (sfile_ (orun 2 se_ex2 se_nm2 s [AJob 2])) = true.
+Proof. exact skip_end_exit_trap_while_parallel_step_runs. Qed.
+Print Assumptions C11_exit_trap_while_parallel_step_runs_refuted.
+
+(* "a second invocation started meanwhile is refused without touching the first" - for EVERY directory the second
+   invocation names.  REFUTED for the directory of the running invocation itself (canvas -r <it>): lock_acquire
+   passes because the owner equals the build directory; world unchanged, NOT refused.  (Stated for the tests ACQ / REL;
+   that these are the tests of util.sh is the tie theorem at the end of the file) *)
+Theorem C11_second_invocation_refused_for_every_directory_refuted :
+  (exists w o b' d', iw_lock w = Some o /\ o <> [] /\ snd (attempt ACQ REL w b' d') = None) /\
+  (forall w b d f, iw_lock w = Some b -> dir_find (iw_dirs w) b = Some f ->
+     attempt ACQ REL w b d = (w, None)).
+Proof. exact (conj second_invocation_refused_for_every_directory_refuted attempt_same_dir_not_refused). Qed.
+Print Assumptions C11_second_invocation_refused_for_every_directory_refuted.
+
+(* what follows, on the combined model: the running invocation holds the lock with step 1 in flight; `canvas -r` of
+   its directory is not refused; step_next of the file it finds is the in-flight step (it runs a second time,
+   concurrently: replayed on the real canvas, harness lane same-directory); and whichever of the two ends first
+   releases the lock under the other *)
+Theorem C11_same_directory_resume_witness :
+  (let b := [100]%N in
+   let steps := [mkpstep 1 [97]%N false 0; mkpstep 2 END false 0] in
+   let nm := fun i : Z => if i =? 1 then [97]%N else END in
+   let w0 := mkiworld None [] [] 0 in
+   let ws := wrun 1 (fun _ => 0) nm ACQ REL b
+               (mkwstate (begun b w0 []) (oinit steps []) []) [WOrch AMain; WOrch (AJob 1); WOther b false] in
+   iw_lock (ws_world ws) = Some b /\ running (ws_orch ws) = [(1, JRunning)] /\
+   ws_refused ws = [(b, None)] /\
+   (exists f, dir_find (iw_dirs (ws_world ws)) b = Some f /\ ResumeDefs.step_next f = Some 1) /\
+   iw_lock (fst (invoke_end REL (ws_world ws) b OFailed false)) = None) /\
+  (forall f i n, ResumeDefs.step_next (f ++ [mkrow i n (-1) 0]) = Some i) /\
+  (forall w b m d, iw_lock w = Some b -> iw_lock (fst (invoke_end REL w b m d)) = None).
+Proof. exact (conj same_dir_resume_witness (conj step_next_of_inflight_tail same_dir_exit_releases_the_lock)). Qed.
+Print Assumptions C11_same_directory_resume_witness.
+
+(* "a report ... (mailed once when running in the background)", "the hook ran ... once for end" - per build directory.
+   A REFUSED `canvas -r OLD` (refused correctly: lock and every other directory untouched, status 1) still runs its
+   exit trap with a non-zero status on OLD: OLD's report is written again, mailed again when in the background, and
+   OLD's end hook runs again when OLD has an end record.  REFUTED by the second conjunct: one mail before, two after.
+   Replayed on the real canvas (harness lane refused-resume) *)
+Theorem C11_refused_resume_reports_again :
+  (forall w o b' d' f,
+     iw_lock w = Some o -> o <> [] -> o <> b' -> dir_find (iw_dirs w) b' = Some f -> has_steps f = true ->
+     let w' := fst (attempt ACQ REL w b' d') in
+     snd (attempt ACQ REL w b' d') = Some 1 /\
+     iw_reports w' = b' :: iw_reports w /\
+     iw_mails w' = (if d' then S (iw_mails w) else iw_mails w) /\
+     e_endhook (trap_exit OFailed f d') = has_end f) /\
+  (exists w o b' f, iw_lock w = Some o /\ o <> [] /\ o <> b' /\ dir_find (iw_dirs w) b' = Some f /\ has_end f = true /\
+     iw_mails w = 1%nat /\ iw_mails (fst (attempt ACQ REL w b' true)) = 2%nat /\
+     e_endhook (trap_exit OFailed f true) = true).
+Proof. exact (conj refused_resume_side_effects refused_resume_mails_again). Qed.
+Print Assumptions C11_refused_resume_reports_again.
+
+(* "a non-negative duration": step_exec_job reads the clock (date +%s) before the in-flight record and after the step,
+   and records the difference.  For the statement list found in util.sh: under a clock that never steps back the
+   recorded duration is >= 0, whatever the pace of the statements *)
+Theorem C11_duration_nonneg_partial : forall clock at_ d,
+  monotone clock -> increasing at_ -> duration_of_shape step_exec_job_body clock at_ = Some d -> 0 <= d.
+Proof. exact (fun clock at_ d => duration_nonneg step_exec_job_body clock at_ d (eq_refl modelled_job)). Qed.
+Print Assumptions C11_duration_nonneg_partial.
+
+(* REFUTED without the hypothesis: date +%s is wall-clock time; set back by 600 s while the step runs, the record
+   carries -600 (replayed with a stepping date stand-in, harness lane duration) *)
+Theorem C11_duration_nonneg_refuted :
+  exists clock at_ d, increasing at_ /\ ~ monotone clock /\
+    duration_of_shape step_exec_job_body clock at_ = Some d /\ d < 0.
+Proof. exact duration_negative_when_clock_steps_back. Qed.
+Print Assumptions C11_duration_nonneg_refuted.
+
 (* ---- the record writes are the step file writes of C01 ------------------------------------------------------ *)
 
 (* the record the orchestrator writes through util.sh step_write / robsd-step -W for a step that has no record
@@ -205,19 +340,30 @@ Print Assumptions C11_step_exec_job_two_writes.
 
 (* ---- the tie to util.sh (last, so that a change of util.sh to a known variant leaves everything above standing) ---- *)
 
-(* the loop, step_exec_job, trap_exit, lock_acquire and lock_release as found in util.sh are the modelled ones *)
+(* the statement lists of robsd()'s loop, step_exec_job and trap_exit as harness/t_orch.py found them in util.sh,
+   INTERPRETED (Orch/ShapeSem.v), are the transition system, trap_exit and the exit trap of the invocation model, in
+   every state; lock_acquire and lock_release use the tests the lock theorems are proved for *)
 Theorem C11_exit_trap_and_lock_are_the_modelled_ones :
-  robsd_loop = modelled_loop /\ trap_exit_shape = modelled_exit /\ step_exec_job_shape = modelled_job /\
+  (forall ncpu exit_of name_of sched s,
+     run_of_shape ncpu exit_of name_of robsd_body step_exec_job_body s sched = orun ncpu exit_of name_of s sched) /\
+  (forall m f d, exit_of_shape trap_exit_body m f d = trap_exit m f d) /\
+  (forall t w b m d, invoke_end_of_shape trap_exit_body t w b m d = invoke_end t w b m d) /\
   lock_acquire_test = ACQ /\ lock_release_test = REL.
-Proof. exact (conj (eq_refl modelled_loop) (conj (eq_refl modelled_exit) (conj (eq_refl modelled_job) (conj (eq_refl ACQ) (eq_refl REL))))). Qed.
+Proof.
+  exact (conj (fun ncpu exit_of name_of sched s => run_tie ncpu exit_of name_of robsd_body step_exec_job_body sched (eq_refl modelled_body) (eq_refl modelled_job) s)
+        (conj (fun m f d => exit_tie trap_exit_body m f d (eq_refl modelled_exit))
+        (conj (fun t w b m d => invoke_end_tie trap_exit_body t w b m d (eq_refl modelled_exit))
+        (conj (eq_refl ACQ) (eq_refl REL))))).
+Qed.
 Print Assumptions C11_exit_trap_and_lock_are_the_modelled_ones.
 
 (* an invocation started while another holds the lock - for EVERY pair of build directory names, e.g. DATE.1
    while DATE.10 runs - ends with status 1, leaves the lock naming the owner, leaves every build directory but
    its own as it was, and its own directory is removed when it has no steps (a fresh one) and kept otherwise (an
    older one resumed).  Stated for the tests harness/t_orch.py found in lock_acquire / lock_release
-   (replaces the definitional C11_second_invocation_refused_untouched) *)
-Theorem C11_second_invocation_refused_untouched : forall w o b' d',
+   GUARD o <> b': the second invocation names another directory than the running one's
+   (C11_second_invocation_refused_for_every_directory_refuted is the case outside) *)
+Theorem C11_second_invocation_refused_untouched_partial : forall w o b' d',
   iw_lock w = Some o -> o <> [] -> o <> b' ->
   exists w', attempt lock_acquire_test lock_release_test w b' d' = (w', Some 1) /\
     iw_lock w' = Some o /\
@@ -227,4 +373,4 @@ Theorem C11_second_invocation_refused_untouched : forall w o b' d',
                                | None => None
                                end.
 Proof. exact (fun w o b' d' => attempt_refused_untouched_for lock_acquire_test lock_release_test w o b' d' (eq_refl ACQ) (eq_refl REL)). Qed.
-Print Assumptions C11_second_invocation_refused_untouched.
+Print Assumptions C11_second_invocation_refused_untouched_partial.
